@@ -1446,7 +1446,7 @@ func run(c Case) *vkit.Result {
 	return res
 }
 
-const rule = "conc: G in 2..8 goroutines x 2..15 ops (44 kinds: authorize/login/callback/token of every grant, userinfo, introspection, revocation, end-session, device polls " +
+const rule = "conc: G in 2..8 goroutines x 2..15 ops (46 kinds: authorize/login/callback/token of every grant, userinfo, introspection, revocation, end-session, device polls " +
 	"of one shared device code, discovery, keys directly on ONE provider (both routers); requests that end in each error path (callback before login with the request's own state, " +
 	"unknown callback id, authorize refusals with and without redirect: prompt / scope / response type / id_token_hint / unknown client / unregistered redirect URI, wrong or foreign code, " +
 	"wrong PKCE verifier, wrong redirect_uri, unknown refresh token / device code, missing grant type, malformed basic auth, wrong secrets at token / introspection / revocation / " +
@@ -1455,14 +1455,21 @@ const rule = "conc: G in 2..8 goroutines x 2..15 ops (44 kinds: authorize/login/
 	"ClientCredentials, device calls, ONE AuthURLHandler and ONE CodeExchangeHandler(UserinfoCallback), rs.Introspect (secret and JWT profile), ExchangeToken, remote key set, JWT-profile token source, " +
 	"Discover through a redirect on ONE RP / RS / exchanger / key set / token source over ONE caller-supplied http.Client, in-process transport) in the -race binary; " +
 	"free or lock-step schedule, warm or cold (nothing touches the provider before the goroutines start), independent or identical programs, issuer static / from Host / from Forwarded-or-Host (then discovery is asked under several host names / Forwarded hosts at once); " +
-	"order: 2..12 steps of constructing providers (8 endpoint options, bulk option, both routers, issuer strategy StaticIssuer / IssuerFromHost / IssuerFromForwardedOrHost without and with " +
+	"the shared provider's op.Config is generated (each of CodeMethodS256 / AuthMethodPost / AuthMethodPrivateKeyJWT / GrantTypeRefreshToken / RequestObjectSupported / back-channel flags on or off, SupportedScopes / " +
+	"SupportedClaims / SupportedUILocales caller-supplied or defaulted, device authorization with the deprecated UserFormURL (two URLs, so providers collide on one) or a UserFormPath, 4 lifetimes, 3 poll intervals, 5 user-code shapes) " +
+	"and 0..3 side providers with generated configurations of their own (both routers, own storage, never touched before the goroutines start) share the process: devauth = one device authorization request on the shared or a side provider, " +
+	"xdisc = discovery / keys of a side provider (twin run, and judged by the provider's own Config); after the join ALL device authorization answers of the case (devauth, devflow, rp_device, setup) are judged together: none carries a user / device code " +
+	"issued to another request, one provider answers all alike up to the answer's own codes; package-level default lists (by value) and every Config with its slices are compared before / after the case; " +
+	"order: 2..12 steps of constructing providers (op.Config generated per provider as above - provider 0 and the closing provider have the all-on, all-defaulted one -, 8 endpoint options, bulk option, both routers, issuer strategy StaticIssuer / IssuerFromHost / IssuerFromForwardedOrHost without and with " +
 	"WithIssuerFromCustomHeaders(1..2 names of 6 spellings), wrapper constructors, default / caller-supplied / no CORS options), issuer functions on their own (the same strategies, path, allowInsecure), " +
 	"RPs (OIDC / OAuth), resource servers, token exchangers with the package default or a shared caller-supplied http.Client, and calls on them, with a deep snapshot (package-level defaults, supplied clients, " +
-	"op.Config, cors.Options, header lists) and a behaviour re-probe of every live instance after every step: discovery document, routed paths, issuer for 9 requests carrying Host / Forwarded / " +
+	"op.Config and its scope / claim / locale slices by value, cors.Options, header lists) and a behaviour re-probe of every live instance after every step: discovery document, 1..2 device authorization requests (answered as right after construction up to " +
+	"the answer's own codes, no code of any other request of the case), key set, a bad token request, routed paths, issuer for 9 requests carrying Host / Forwarded / " +
 	"X-Forwarded-Host / other headers (two reference issuer functions with default options are built before anything else), CORS answers, key set, answers to fixed bad requests, what RPs / RSs / exchangers " +
-	"tell about themselves, redirect following; an instance built later behaves like the reference / provider 0 with the same options (or as the options are documented), and every case closes by " +
+	"tell about themselves, redirect following; an instance built later behaves like the reference / provider 0 with the same options / the first provider of the case with an equal op.Config (or as the options and the members of op.Config are documented: " +
+	"scopes / claims / locales / grant types / auth methods / PKCE methods / request-object and back-channel flags advertised, verification URIs, expires_in, interval and user-code shape answered), and every case closes by " +
 	"building the default issuer functions and a default provider once more; " +
-	"non-trivial: conc = >=2 goroutines and >=4 executed ops, distinct = (router, alg, token type, schedule, cold, G, set of op-kind pairs that ran in different goroutines); " +
+	"non-trivial: conc = >=2 goroutines and >=4 executed ops, distinct = (router, alg, token type, schedule, cold, G, set of op-kind pairs that ran in different goroutines, configurations of the shared and the side providers); " +
 	"order = >=2 instances or >=1 call after a constructor, distinct = step sequence"
 
 var prop = vkit.Prop[Case]{ID: "C20", Rule: rule, Gen: genConc, Run: run, Track: true}
